@@ -266,3 +266,25 @@ class Tracked:
 
     def __del__(self):
         LIVE[0] -= 1
+
+
+class Buf(Tracked):
+    """Buffer exporter (PEP 688) whose acquisition is a fallible call: the probe inside __buffer__ may raise, or make it
+    export a buffer of the wrong item type; releases are logged."""
+
+    def __init__(self, tag=0):
+        Tracked.__init__(self, tag)
+        import array
+        self.data = array.array("i", [tag, 2, 3, 4])
+
+    def __buffer__(self, flags):
+        r = P(self.tag)
+        if r == "s":
+            return memoryview(b"abcdefgh")          # wrong item format for an int[:] view
+        if r == 2.5:
+            raise BufferError(self.tag)
+        return memoryview(self.data)
+
+    def __release_buffer__(self, view):
+        LOG.append(("buf.release", self.tag))
+        view.release()
